@@ -97,6 +97,7 @@ theorem grad_cubic_exact (a b c d t0 t1 te : K) (h : t1 ≠ t0) :
   field_simp
   ring
 
+omit [DecidableEq K] in
 /-- every Hermite datum is the datum of a cubic: together with the two exactness theorems this
 gives "grad is the derivative of value" for arbitrary data -/
 theorem data_from_cubic (t0 t1 p0 p1 m0 m1 : K) (h : t1 ≠ t0) :
